@@ -117,7 +117,7 @@ theorem bsearch_sound (L : List UInt8) (F : List Nat) (j : Nat) :
 
 -- ftab after `link` on "nnbaaa": a→3, b→4, n→6; slots 0-2 ↦ 'a', 3 ↦ 'b', 4-5 ↦ 'n'
 example :
-    (List.range 6).map (bsearch (link ([110, 110, 98, 97, 97, 97].map (·.toNat))
+    (List.range 6).map (bsearch (link (([110, 110, 98, 97, 97, 97] : List UInt8).map (·.toNat))
       (cumulate 0 (counts [110, 110, 98, 97, 97, 97])) 6).2) = [97, 97, 97, 98, 110, 110] := by
   decide +kernel
 
@@ -130,6 +130,12 @@ theorem derand_loop_sound (tt : List Nat) :
       Spec.Ibwt.derand Gen.randTable (tt.map Lemmas.IbwtDerand.low) :=
   Lemmas.IbwtDerand.derandLoop_low tt
 
+-- 700 cells holding byte 5: exactly cell 617 (= RAND_THRESH) is flipped
+example :
+    ((derandLoop 700 700 0 Gen.RAND_THRESH (List.replicate 700 5)).map
+      Lemmas.IbwtDerand.low).zipIdx.filter (fun (b, _) => b != 5) = [(4, 617)] := by
+  decide +kernel
+
 /-- **ibwt_sound_rand** (randomised path, every block): the bytes `emit()`
 reads after `decode()` are the reference derandomisation of the textbook
 inverse BWT of `(L, idx)`. -/
@@ -137,13 +143,12 @@ theorem ibwt_sound_rand (L : List UInt8) (idx : Nat) (hidx : idx < L.length) :
     nodes true idx L = Spec.Ibwt.derand Gen.randTable (Spec.Ibwt.ibwt L idx) :=
   Lemmas.IbwtRand.nodes_true_eq L idx hidx
 
--- a block long enough for the first flip (position 617 = RAND_THRESH)
-example : nodes true 0 (List.replicate 700 5) =
-      Spec.Ibwt.derand Gen.randTable (Spec.Ibwt.ibwt (List.replicate 700 5) 0) ∧
-    (nodes true 0 (List.replicate 700 5)).getD 617 0 = 4 ∧
-    (nodes true 0 (List.replicate 700 5)).getD 616 0 = 5 ∧
-    (nodes false 0 (List.replicate 700 5)).getD 617 0 = 5 :=
-  ⟨ibwt_sound_rand _ 0 (by decide), by decide +kernel⟩
+-- (blocks of ≤ 617 bytes are not changed by derandomisation; for a longer one see the
+-- example after `derand_loop_sound` and `Lemmas.IbwtTests.test_derand`)
+example : nodes true 3 [110, 110, 98, 97, 97, 97] =
+      Spec.Ibwt.derand Gen.randTable (Spec.Ibwt.ibwt [110, 110, 98, 97, 97, 97] 3) ∧
+    nodes true 3 [110, 110, 98, 97, 97, 97] = [98, 97, 110, 97, 110, 97] :=
+  ⟨ibwt_sound_rand _ 3 (by decide), by decide +kernel⟩
 
 /-- **ibwt_sound_all**: `IbwtSound` holds. -/
 theorem ibwt_sound_all : IbwtSound :=
